@@ -106,4 +106,47 @@ var plans = map[string]*plan{
 		Exhaustive:     func(r *result) bool { return r.stats["c15.cells"] >= 583 },
 		Assumptions:    []string{"'blocks forever' is decided on goroutine state in a closed scenario (DESIGN 2.8), not on a deadline; watchdog expiry is inconclusive", "yield points inside critical sections only delay"},
 	},
+	"C01": {
+		Level: "exploration",
+		Rule: "sequential histories (15..40 steps) of connect / SUBSCRIBE (1..3 filters) / UNSUBSCRIBE / PUBLISH (client QoS 0..2, Server.Publish) / DISCONNECT / abrupt close over 3..6 raw clients and 2 in-process subscribers against a real broker over net.Pipe inside a testing/synctest bubble; synctest.Wait() after every step is true quiescence, so the set of packets each client holds is final. A 15-line model (client -> filter -> granted QoS, MQTT 4.7 matcher) predicts for every publish, per subscriber, between 1 and k copies (k matching subscriptions) with QoS multiset min(pub, granted), none for everybody else; topic, CRC-carrying payload and unique id are checked. " +
+			"Filters/names over {a, b, a 50-char literal, a UTF-8 literal, empty level (marked subset), +, #} with 1..4 levels; payload sizes 17..4000, 8 KiB block edge and BufferSize-8192 limit for BufferSize 16K/64K/default. distinct = (filter shape, topic shape, verdict, pub QoS, granted QoS).",
+		Quick:          []batchSpec{{Test: "TestC01Seq", N: 8, Timeout: 15 * m}},
+		Thorough:       []batchSpec{{Test: "TestC01Seq", N: 16, Timeout: 60 * m}},
+		EvalStats:      []string{"c01.seq.publishes"},
+		Floors:         map[string]int64{"c01.seq.histories": 1300, "c01.seq.publishes": 12000, "c01.seq.wildcard_must": 3000, "c01.seq.wildcard_mustnot": 20000, "classes": 400},
+		FloorsThorough: map[string]int64{"c01.seq.histories": 30000, "c01.seq.publishes": 300000, "classes": 600},
+		Assumptions:    []string{"synctest.Wait() returns only when every goroutine of broker and harness is durably blocked, i.e. at quiescence", "raw clients acknowledge promptly; takeover of a live client id is not exercised"},
+	},
+	"C07": {
+		Level: "exploration",
+		Rule: "a raw client sends generated SUBSCRIBE packets (1..40 filters: valid / invalid ('#' not last, wildcard inside a level, empty) / '$'-prefixed / repeated, requested QoS 0..2 and 3/0x7f/0x80 built with the reference encoder) and UNSUBSCRIBE packets (1..40 filters held / not held / repeated) with topics.MaxQosAllowed in {0,1,2}; at quiescence (synctest) either the connection is closed or exactly one SUBACK/UNSUBACK with the request's id arrived, one code per filter in order: min(requested, max) for an accepted filter, 0x80 for a rejected one. " +
+			"Afterwards a second client publishes probes (names derived from every listed filter incl. the parent level of '#') and the deliveries must equal the model of granted filters. distinct = (filter kind, requested QoS, server max, request size bucket).",
+		Quick:          []batchSpec{{Test: "TestC07", N: 8, Timeout: 15 * m}},
+		Thorough:       []batchSpec{{Test: "TestC07", N: 16, Timeout: 60 * m}},
+		EvalStats:      []string{"c07.subscribes", "c07.unsubscribes"},
+		Floors:         map[string]int64{"c07.scenarios": 2000, "c07.subscribes": 5000, "c07.unsubscribes": 5000, "c07.probes": 100000, "classes": 150},
+		FloorsThorough: map[string]int64{"c07.scenarios": 70000, "classes": 150},
+		Assumptions:    []string{"quiescence by synctest.Wait()", "a '$'-prefixed filter may be granted or refused (0x80)"},
+	},
+	"C08": {
+		Level: "exploration",
+		Rule: "sequential histories (20..50 steps, synctest) over 10 topics: retained / plain / empty-payload (clearing) publishes at QoS 0..2 by 3..5 raw clients and Server.Publish, new subscriptions (16 literal and wildcard filters, 1..3 per request, granted 0..2) by raw clients and Server.Subscribe, unsubscribes, and filler traffic of more than two ring sizes. Model: topic -> (uid, QoS) last-writer-wins, cleared by an empty retained payload. " +
+			"At every new subscription the PUBLISH packets after the SUBACK must be exactly one per (filter, matching stored topic), retain=1, QoS min(stored, granted), CRC-correct payload of the model's current uid; live forwards are checked with the C01 oracle and must carry retain=0. distinct = (filter shape, granted QoS, number of stored topics).",
+		Quick:          []batchSpec{{Test: "TestC08", N: 8, Timeout: 15 * m}},
+		Thorough:       []batchSpec{{Test: "TestC08", N: 16, Timeout: 60 * m}},
+		EvalStats:      []string{"c08.subscriptions", "c08.retained_publishes"},
+		Floors:         map[string]int64{"c08.histories": 1100, "c08.subscriptions": 10000, "c08.retained_deliveries": 15000, "c08.clears": 3000, "c08.filler_rounds": 3000, "classes": 150},
+		FloorsThorough: map[string]int64{"c08.histories": 35000, "classes": 200},
+		Assumptions:    []string{"quiescence by synctest.Wait()", "the concurrent half of the property (retained updates racing new subscriptions) is covered by the C18/C08 concurrent workload where built"},
+	},
+	"C09": {
+		Level:          "fault_enumeration",
+		Rule:           "session histories of 1..4 connections of one client id (CleanSession toggled, will present/absent, will QoS 0..2, retain, 3 topics, payload 17/200/3000 bytes or empty, fresh unique id each time) crossed with endings {DISCONNECT, abrupt close, keep-alive expiry in virtual time, reserved packet type, SUBSCRIBE with bad flags, injected read error (chaos conn at byte offsets 0..5 after CONNECT), packet larger than the ring}; a witness subscribed to will/# at QoS 2 must receive the will of the CONNECT of the connection that ended exactly once for every non-DISCONNECT ending (topic, QoS, payload, retain=0 on the live forward) and nothing after DISCONNECT; retained wills are checked with fresh subscribers. distinct = (ending, clean, will present, QoS, retain, empty payload, resumed).",
+		Quick:          []batchSpec{{Test: "TestC09", N: 8, Timeout: 15 * m}},
+		Thorough:       []batchSpec{{Test: "TestC09", N: 16, Timeout: 60 * m}},
+		EvalStats:      []string{"c09.connections"},
+		Floors:         map[string]int64{"c09.histories": 1800, "c09.connections": 4000, "classes": 250},
+		FloorsThorough: map[string]int64{"c09.histories": 55000, "classes": 300},
+		Assumptions:    []string{"quiescence by synctest.Wait(); keep-alive expiry happens in virtual time", "server-initiated Close is executed at the end of every history but not asserted (the statement does not cover it)"},
+	},
 }
